@@ -5,6 +5,9 @@ ROOT = os.path.dirname(os.path.dirname(os.path.abspath(__file__)))
 ALL = ["C%02d" % i for i in range(1, 18)]
 TIE = " Tied to /repo on every run by a differential correspondence (implementation built from the working tree vs the executable Lean model, generated inputs from VERIF_SEED, shrinking, property-oracle search on disagreement)."
 CLAIMS = {
+ "C17": ("Lean 4 theorems: the SetOSType decision table stated outright (tag on: every requested type honoured whatever the host; tag off: only the host type), separator by type; tied to /repo by the construction matrix {MemFS, OrefaFS} × {Unknown, Linux, Windows} run from a tag-on and a tag-off harness binary. Agreement of the Windows-typed and Linux-typed emulations (success/failure call by call, isomorphic trees) is an oracle run in lockstep on portable histories, with recorded divergence classes.",
+         "os_agreement is not a theorem (the Lean file-system models are Linux-only); volume management not exercised.",
+         "Lean 4 proof (decision table) + lockstep differential of the two emulations", "§3 C17"),
  "C06": ("Generic Lean 4 theorem (any number of threads, any trace): if every access happens inside critical sections on one lock held exclusively, sections of different threads never interleave (serial execution in acquisition order, respecting real time). Instantiated by kernel-decided obligations on lock facts REGENERATED from the source on every run: OrefaFS Mkdir/MkdirAll/Remove/RemoveAll and all MemIdm operations except AddUser touch guarded state inside one section only; AddUser's two sections are a kernel-checked witness of a recorded finding.",
          "Full linearizability of MemFS's lock-free walk is not claimed; the translator is trusted; non-linearizable pairs are recorded findings reproduced only by free-running stress (no deterministic scheduler).",
          "Lean 4 proof (generic mutual-exclusion theorem + decide over regenerated lock facts) + race-detector stress as search", "§3 C06"),
